@@ -45,10 +45,12 @@ fn compartmentalize(base: Value) -> Value {
 }
 
 fn compartmentalize_map(map: &mut Mapping) {
+    // a bare `<any>` key is an address node that was synthesised by an earlier entry (this
+    // function runs again on a sub-mapping for every entry routed through it), not a flat key
     let keys = map
         .keys()
         .filter_map(Value::as_str)
-        .filter(|k| k.contains(ANY))
+        .filter(|k| k.contains(ANY) && *k != ANY)
         .map(str::to_string)
         .collect::<Vec<_>>();
 
